@@ -268,7 +268,7 @@ def serveAllX (pr : PatRouter) (method path : String) (dec : H → Params → St
 def hasUpper (s : String) : Bool := s.toList.any Char.isUpper
 
 /-- one `req` line (router and server sections). -/
-def runReq (r : Report) (st : St) (sidx : Nat) (l : Line) (m p : String) (auth : Option String := none) : Report := Id.run do
+def runReq (r : Report) (st : St) (sidx : Nat) (l : Line) (m p : String) (auth : Option String := none) (srv : Bool := false) : Report := Id.run do
   let mut r := r
   let (implClean, outs) := match l.obs with
     | c :: rest => ((String.ofList (c.toList.drop 6)), splitBar rest)
@@ -355,6 +355,14 @@ def runReq (r : Report) (st : St) (sidx : Nat) (l : Line) (m p : String) (auth :
       match monitorReq st.tbl hyp (customOf st.pr) m p base with
       | some msg => r := r.violation sidx l.idx s!"request {m} {p}: {msg}"
       | none => pure ()
+      -- rest.Server: engine.notFoundHandler forces the status 404 unless the custom handler wrote one itself
+      match (base.splitOn " ").filter (· ≠ "") with
+      | [hk, ck] =>
+        if srv ∧ hk.startsWith "nf=" ∧ ck.startsWith "code=" then
+          let id := (dropStr 3 hk).toNat?.getD 0
+          if (dropStr 5 ck).toNat? ≠ some ((ownCode id).getD 404) then
+            r := r.violation sidx l.idx s!"request {m} {p}: the custom not-found handler nf={id} ran but the response status is [{dropStr 5 ck}], not [{(ownCode id).getD 404}] (no route matches: 404 unless the handler wrote a status itself)"
+      | _ => pure ()
       match parseObs base with
       | .hit h _ =>
         let ms := rmetaOf h
@@ -497,7 +505,7 @@ def runSection (r : Report) (s : Section) : Report := Id.run do
       match arg "m=" args, arg "p=" args with
       | some m, some p =>
         if kvStr s.cfg "kind" = "server" then st := { st with built := true }
-        r := runReq r st s.idx l m p (arg "auth=" args)
+        r := runReq r st s.idx l m p (arg "auth=" args) (kvStr s.cfg "kind" = "server")
         st := { st with served := true }
       | _, _ => r := r.mismatch s.idx l.idx "bad-op" (joinSp l.op)
     | "tadd" :: args =>
